@@ -125,14 +125,31 @@ Definition init_grp (f : fault) (s : store) (n : nat) : lres :=
   | (n1, inr code) => LErr code n1
   end.
 
-(* initTopicSys: t.lastID = stopic.SeqId; t.delID is NOT assigned *)
+(* initTopicSys: t.lastID = stopic.SeqId; t.delID = stopic.DelId (/repo 91f0ab5) *)
 Definition init_sys (f : fault) (s : store) (n : nat) : lres :=
   let '(ok1, n1) := call f n in                            (* Topics.Get *)
   if negb ok1 then LErr 500 n1 else
   if negb (t_exists s) then LErr 404 n1 else
   let '(ok2, n2) := call f n1 in                           (* loadSubscribers: Topics.GetSubs *)
   if negb ok2 then LErr 500 n2 else
+  LOk s (mkLC (t_seqid s) (t_delid s) (load_lusers (live_rows s)) []) n2 false.
+
+(* initTopicSys as it was before /repo 91f0ab5: t.delID was NOT assigned (stayed 0).  Kept only
+   as the subject of c01_load_restores_delid_unrepaired_refuted; nothing else uses it. *)
+Definition init_sys_unrepaired (f : fault) (s : store) (n : nat) : lres :=
+  let '(ok1, n1) := call f n in
+  if negb ok1 then LErr 500 n1 else
+  if negb (t_exists s) then LErr 404 n1 else
+  let '(ok2, n2) := call f n1 in
+  if negb ok2 then LErr 500 n2 else
   LOk s (mkLC (t_seqid s) 0 (load_lusers (live_rows s)) []) n2 false.
+Definition init_topic_unrepaired (k : tkind) (f : fault) (s : store) (n : nat) (u1 u2 : N) : lres :=
+  match k with
+  | KMe | KFnd => init_me_fnd f s n
+  | KP2P => init_p2p f s n u1 u2
+  | KGrp => init_grp f s n
+  | KSys => init_sys_unrepaired f s n
+  end.
 
 Definition init_topic (k : tkind) (f : fault) (s : store) (n : nat) (u1 u2 : N) : lres :=
   match k with
